@@ -19,7 +19,8 @@ RULE = ("A real device with ChangeOfValueServices holding analog-value (COV incr
         "a remaining time within +-1 s of the model's (0 iff indefinite); nothing for non-qualifying changes, after cancellation or "
         "after the lifetime; a re-subscription never yields two subscriptions; the active-subscription list equals the model's "
         "set. Non-trivial: timeline with a renewal, a cancellation or expiry followed by a change, or >= 2 subscriptions on one "
-        "object. Distinct by the operation list.")
+        "object. Distinct by the operation list."
+        " Also: operations that refer back to earlier subscriptions (renew / cancel / write) and a renewal matrix of (old, new) lifetimes.")
 ASSUMPTIONS = [
     "same-instant bursts: the library coalesces changes made before the event loop runs; 1..k notifications are accepted, the last carrying the final values",
     "analog objects with several subscriptions: 'last reported value' may be read per subscription or per object; a notification is required "
